@@ -24,6 +24,7 @@
 #include "qtlogger/qtlogger.h"
 
 Q_LOGGING_CATEGORY(lcApp, "app.core")
+Q_LOGGING_CATEGORY(lcNet, "net")
 
 static QByteArray body(const QString &tag, int size)
 {
@@ -75,6 +76,8 @@ int main(int argc, char **argv)
         // README-style layout: sibling sub-pipelines, the file sink lives in the last one
         for (int i = 0; i < sc["siblings"].toInt(); i++)
             gQtLogger.pipeline().filterLevel(QtWarningMsg).format(QStringLiteral("%{message}")).handler([](QtLogger::LogMessage &) { return true; }).end();
+        if (sc["netFile"].toBool()) // a per-category log file: the fatal message (another category) never reaches this sink
+            gQtLogger.pipeline().filterCategory(QStringLiteral("*=false\nnet=true")).format(pattern).sendToFile(dir + "/../net.log").end();
         gQtLogger.pipeline().format(pattern).sendToFile(path, maxSize, 0, opt).end();
         gQtLogger.installMessageHandler();
     } else if (style == "oneline") {
@@ -85,6 +88,7 @@ int main(int argc, char **argv)
             QSettings s(ini, QSettings::IniFormat);
             s.setValue("logger/message_pattern", pattern);
             s.setValue("logger/platform_std_log", false);
+            if (sc["stderrFull"].toBool()) s.setValue("logger/stderr", true); // a console sink in front of the file sink
             s.setValue("logger/path", path);
             s.setValue("logger/max_file_size", kind == "size" ? L : 0);
             s.setValue("logger/max_file_count", 0);
@@ -108,7 +112,8 @@ int main(int argc, char **argv)
     auto logList = [&](int t) {
         for (auto &m : perThread[size_t(t)]) {
             QByteArray b = body(QStringLiteral("m%1").arg(m.first), m.second);
-            if (m.first % 3 == 0) qCInfo(lcApp, "%s", b.constData());
+            if (m.first % 5 == 1) qCInfo(lcNet, "%s", b.constData());
+            else if (m.first % 3 == 0) qCInfo(lcApp, "%s", b.constData());
             else if (m.first % 3 == 1) qWarning("%s", b.constData());
             else qDebug("%s", b.constData());
         }
